@@ -11,7 +11,7 @@ CASES = {'quick': 1500, 'thorough': 40000}
 GATES = {
     'quick': {'evaluations': 30000, 'equal_pairs': 15000, 'token_perturbations': 3000, 'child_perturbations': 2500,
               'attribution_perturbations': 500, 'type_perturbations': 300, 'class_fields_perturbed': 120, 'token_law_pairs': 10000,
-              'whole_file_text_perturbations': 3000, 'token_law_after_edit': 3000, 'documents_in_small_blocks': 400, 'models_with_custom_indent_by': 200,
+              'whole_file_text_perturbations': 3000, 'token_law_after_edit': 3000, 'documents_in_small_blocks': 400, 'same_text_same_tree_pairs': 300, 'models_with_custom_indent_by': 200,
               'submodel_copies': 4000},
     'thorough': {'evaluations': 800000, 'class_fields_perturbed': 160},
 }
@@ -36,6 +36,9 @@ SAME_TEXT_TYPES = [(models.CostSpec, models.UnitCost, ['{1 USD}', '{}', '{ 2000-
 SAME_TEXT_TOKENS = [('*', [models.PostingFlag, models.TransactionFlag, models.Asterisk, models.MulOp]),
                     ('#', [models.PostingFlag, models.Hash]), (' ', [models.Whitespace, models.Indent]),
                     ('-', [models.UnaryOp, models.AddOp]), ('USD', [models.Currency, models.Ignored])]
+
+
+KF_ZERO_WIDTH = 'zero-width-token-layout-in-equality'
 
 
 def setup(col):
@@ -181,6 +184,45 @@ def run_case(col, r, idx):
         if hash(t) != hash(twin) or t not in {twin}:
             col.violation(f'token-hash-after-edit:{type(t).__name__}', f'after assigning {how}, {t!r} equals a fresh token of the same text but hashes differently', wit)
             return
+    # "equal exactly when": an edited document and a fresh parse of its printed text have the same type, print the same text and -
+    # where their trees (with comment ownership) are the same - must compare equal
+    if acl and idx % 4 == 2:
+        e = P.parse(text, models.File)
+        how = r.choice(['meta-added', 'meta-removed', 'claims-round-trip'])
+        try:
+            ents = [m_ for m_ in e.raw_directives if hasattr(type(m_), 'meta')]
+            if how == 'meta-added' and ents:
+                r.choice(ents).meta['kq'] = 'v'
+            elif how == 'meta-removed' and any(len(m_.raw_meta) for m_ in ents):
+                r.choice([m_ for m_ in ents if len(m_.raw_meta)]).raw_meta.clear()
+            else:
+                how = 'claims-round-trip'
+                mg = ops.MiscGenerator(r)
+                for _ in range(r.randint(2, 8)):
+                    op = mg.claim_op(e)
+                    if op is not None:
+                        try:
+                            op.apply()
+                        except ValueError:
+                            pass
+                e.auto_claim_comments()
+            g = P.parse(common.pr(e), models.File)
+        except Exception:
+            g = None
+        if g is not None and common.pr(g) == common.pr(e) and walker.digest(e, comments='keep') == walker.digest(g, comments='keep'):
+            col.ev()
+            col.count('same_text_same_tree_pairs')
+            col.count('same_text_same_tree:' + how)
+            x, y = both(e, g)
+            if not (x and y):
+                zw = lambda f_: [(type(t).__name__, i) for i, t in enumerate(f_.token_store) if not t.raw_text]
+                vis = lambda f_: [(type(t).__name__, t.raw_text) for t in f_.token_store if t.raw_text]
+                mech = KF_ZERO_WIDTH if vis(e) == vis(g) and zw(e) != zw(g) else f'equal-pair-unequal:edited-vs-reparsed:{how}'
+                col.violation(mech, f'after {how} the document and a fresh parse of its printed text have the same text and the same tree '
+                              f'(with comment ownership) but compare unequal' + (': they differ in where zero-width tokens (dedent marks, '
+                              'list placeholders) sit' if mech == KF_ZERO_WIDTH else ''), dict(wit, edit=how, printed=common.pr(e)))
+                if mech != KF_ZERO_WIDTH:
+                    return
     a = P.parse(text, models.File, auto_claim_comments=acl)      # the edits above were made on `a`: take a fresh parse for what follows
     pa = by_path(a)
     toks = [t for t in a.token_store]
@@ -324,6 +366,20 @@ def run_case(col, r, idx):
     if idx % 211 == 0:
         col.sample({'text': text, 'acl': acl, 'sub_models_compared': len(pa)})
 
+
+
+def _pinned_zero_width(col):
+    """Pinned witness of the known finding: the edited entry has no dedent mark, the re-parsed one has."""
+    P = common.parser()
+    f = P.parse('2000-01-01 open Assets:A\n', models.File)
+    f.directives[0].meta['kq'] = 'v'
+    g = P.parse(common.pr(f), models.File)
+    col.ev()
+    if common.pr(f) == common.pr(g) and walker.digest(f, comments='keep') == walker.digest(g, comments='keep') and not (f == g and g == f):
+        col.violation(KF_ZERO_WIDTH, "open.meta['kq'] = 'v' and a fresh parse of the printed text: same text, same tree, unequal", {'printed': common.pr(f)})
+
+
+PINNED = [(KF_ZERO_WIDTH, _pinned_zero_width)]
 
 def derive(counters):
     counters['class_fields_perturbed'] = sum(1 for k in counters if k.startswith('field:'))
